@@ -11,6 +11,7 @@ import c_matrix
 import c_quat
 import c_angle
 import c_rot
+import c_conv
 import re
 import sym
 
@@ -172,6 +173,34 @@ def unit_C06(src, angle_kind='Rad'):
     return u
 
 
+def unit_conv(src, prop, angle_kind='Rad'):
+    """C05 (quaternion / matrix / Basis3 conversions) and C07 (Euler conversions)"""
+    u = Unit(prop + ('' if angle_kind == 'Rad' else 'deg'), src, 'R')
+    lib, F = full_base(u, angle_kind)
+    c_conv.build(lib, F)
+    u.spec_texts.append(lib.text())
+    u.spec_texts.append(c_conv.text_specs())
+    rh, rp = c_rot.shape_hints(F)
+    u.contract_fns.insert(0, c_rot.contracts(rh, angle_kind))
+    c_rot.select_c06(u)
+    hints, polys = c_conv.shape_hints(F)
+    u.poly_texts += polys
+    u.contract_fns.insert(0, c_conv.contracts(hints, angle_kind))
+    c_conv.select(u)
+    if prop == 'C05':
+        own = lambda im, f: im is not None and trait_name_of(im) == 'From' and f.name == 'from' and 'Euler' not in im.header and (
+            'Quaternion' in im.header) or (im is not None and f.name == 'from_quaternion')
+    else:
+        own = lambda im, f: im is not None and ('Euler' in im.header)
+    u.assume_pred = lambda im, f: not own(im, f)
+    if angle_kind == 'Rad':
+        u.lemma_texts.append(sym.HELPER_LEMMAS)
+        add_laws(u, c_conv.laws_c05(F) if prop == 'C05' else c_conv.laws_c07(F))
+        if prop == 'C07':
+            u.lemma_texts.append(c_conv.handwritten_c07())
+    return u
+
+
 def trait_name_of(im):
     from emit import trait_name
     return trait_name(im.trait)
@@ -189,7 +218,7 @@ def build_C03(src, tier):
     return [unit_C03(src, 'R')]
 
 
-UNITS = {'C06': lambda src, tier: [unit_C06(src, 'Rad'), unit_C06(src, 'Deg')], 'C13': lambda src, tier: [unit_C13(src, 'R')], 'C04': lambda src, tier: [unit_C04(src, 'R')], 'C02': lambda src, tier: [unit_C02(src, 'R')], 'C01': lambda src, tier: [unit_C01(src, 'R'), unit_C01t(src, 'R')], 'C03': build_C03, 'C12': lambda src, tier: [unit_C12(src, 'R')]}
+UNITS = {'C05': lambda src, tier: [unit_conv(src, 'C05', 'Rad')], 'C07': lambda src, tier: [unit_conv(src, 'C07', 'Rad'), unit_conv(src, 'C07', 'Deg')], 'C06': lambda src, tier: [unit_C06(src, 'Rad'), unit_C06(src, 'Deg')], 'C13': lambda src, tier: [unit_C13(src, 'R')], 'C04': lambda src, tier: [unit_C04(src, 'R')], 'C02': lambda src, tier: [unit_C02(src, 'R')], 'C01': lambda src, tier: [unit_C01(src, 'R'), unit_C01t(src, 'R')], 'C03': build_C03, 'C12': lambda src, tier: [unit_C12(src, 'R')]}
 KANI = {}
 META = {
     'C03': dict(min_obligations=350, trust=['A1', 'A2', 'A6'],
